@@ -3,7 +3,7 @@
    A zone is passed as  init :: n :: t1 :: o1 :: ... ; a float as (tag, mantissa, exponent) = TdFloat.sf_code. *)
 From Coq Require Import ZArith List Bool.
 From Coq Require Import Floats.SpecFloat.
-From PV Require Import Lib.PyBase Spec.Cal Spec.Zone Spec.NativeDT Spec.TdFloat Gen.AddDuration Model.TzConvert Model.TzDispatch Model.FloatRoutes.
+From PV Require Import Lib.PyBase Spec.Cal Spec.Zone Spec.NativeDT Spec.TdFloat Gen.AddDuration Model.TzConvert Model.TzDispatch Model.FloatRoutes Model.LocalTzConfig.
 Import ListNotations.
 Open Scope Z_scope.
 
@@ -40,6 +40,7 @@ Definition dispatch (fn : Z) (args : list Z) : list Z :=
     | 25 (* add_duration_float *), [W; t; m; e] =>
         match add_duration_float (mkndt W true) (sf_decode t m e) with Ok d => [0; n_wall d] | Raise ex => [1; exn_code ex] end
     | 26 (* add_seconds_float *), [W; f; t; m; e] => out_dt z (add_seconds_float z W (zb f) (sf_decode t m e))
+    | 30 (* localtz_run *), ops => 0 :: ltz_run ltz_init ops
     | _, _ => [9]
     end
   end.
